@@ -3,7 +3,8 @@
     their axiom audit and non-vacuity examples. *)
 From Coq Require Import ZArith List Bool Lia.
 From Low Require Import Lib.Bits Lib.BitSeq Lib.Lex Lib.Bytes Model.Sigbits Spec.SigbitsSpec Spec.ShardRouteSpec
-  Proofs.SigbitsShardChecker Proofs.SigbitsLcpAll Proofs.SigbitsShard Proofs.SigbitsShardRoute.
+  Proofs.SigbitsShardChecker Proofs.SigbitsLcpAll Proofs.SigbitsShard Proofs.SigbitsShardRoute
+  Proofs.SigbitsShardDomain.
 Import ListNotations.
 Open Scope Z_scope.
 
@@ -135,3 +136,43 @@ Theorem C17_route_lookup : forall keys maxSize L B,
   route_okb (zlen keys) B (map (route (shard_prefixes keys L B)) keys) = true.
 Proof. exact route_lookup. Qed.
 Print Assumptions C17_route_lookup.
+
+(** Widening: the edges of the domain.  When all keys fit into one shard the result is that one
+    shard (no order hypothesis needed); for maxSize = 1 the relation [shard_spec] is a function --
+    every key is its own shard with the whole key as prefix -- so there the checker admits exactly
+    one output. *)
+Theorem C17_one_shard : forall keys maxSize,
+  keys <> [] -> keys_ok keys -> zlen keys <= maxSize ->
+  ShardByPrefix keys maxSize = Some ([zlen (lcp_all keys)], [0; zlen keys]).
+Proof. exact ShardByPrefix_one_shard. Qed.
+Print Assumptions C17_one_shard.
+
+Theorem C17_maxSize_1 : forall keys L B, shard_spec keys 1 L B ->
+  B = map Z.of_nat (seq 0 (S (length keys))) /\ L = map zlen keys.
+Proof. exact shard_spec_maxSize_1. Qed.
+Print Assumptions C17_maxSize_1.
+
+(** Outside the domain (model facts, not judged on the implementation): an empty key list panics
+    in FirstDiffBits ([make([]int32, -1)]); with maxSize <= 0 the recursion never ends -- [dfs]
+    returns [None] for EVERY amount of fuel, on every range (in Go: `fatal error: stack overflow`,
+    which no [recover] can catch; confirmed on the real code with ShardByPrefix({"a","b"}, 0)). *)
+Theorem C17_empty_panics : forall maxSize, ShardByPrefix [] maxSize = None.
+Proof. exact ShardByPrefix_empty. Qed.
+Print Assumptions C17_empty_panics.
+
+Theorem C17_nonpositive_maxSize_diverges : forall keys fd maxSize, maxSize <= 0 ->
+  forall fuel s e st, s < e -> dfs keys fd maxSize fuel s e st = None.
+Proof. exact dfs_nonpositive_maxSize. Qed.
+Print Assumptions C17_nonpositive_maxSize_diverges.
+
+Example C17_edges_nonvacuous :
+  ShardByPrefix [[97; 98]; [97; 98; 99]; [97; 100]] 3 = Some ([1], [0; 3]) /\
+  zlen (lcp_all [[97; 98]; [97; 98; 99]; [97; 100]]) = 1 /\
+  ShardByPrefix [[97; 98]; [97; 98; 99]; [97; 100]] 1 = Some ([2; 3; 2], [0; 1; 2; 3]) /\
+  shard_spec [[97; 98]; [97; 98; 99]; [97; 100]] 1 [2; 3; 2] [0; 1; 2; 3] /\
+  ShardByPrefix [[97]; [98]] 0 = None /\
+  dfs [[97]; [98]] [0] 0 1000 0 2 ([], [0]) = None.
+Proof.
+  repeat (split; [vm_compute; reflexivity|]). split; [apply shard_ok_sound; vm_compute; reflexivity|].
+  split; vm_compute; reflexivity.
+Qed.
